@@ -1,6 +1,6 @@
 #!/usr/bin/env python3
 """selftest/translator_variants.py [name ...]: the translator channel (bin/extract + bin/rust2lean.py + the theorems of
-Lemmas/SourceReassembly.lean, Lemmas/SourceProtocol.lean and Lemmas/SourceReceivers.lean) tried on scratch copies of /repo/src with small edits of the
+Lemmas/SourceReassembly.lean, Lemmas/SourceProtocol.lean, Lemmas/SourceReceivers.lean and Lemmas/SourceDecoders.lean) tried on scratch copies of /repo/src with small edits of the
 translated functions: behaviour-preserving rewrites (R*: every theorem must still check, or the function must drop out of the
 translatable subset) and property-breaking edits (B*: the theorem named must break, unless the function drops out).
 Nothing is written to /repo or to the Lean project (bin/srccheck compiles into a private directory). Prints one line per
@@ -14,6 +14,20 @@ PR = open("/repo/src/protocol.rs").read()
 US = open("/repo/src/interface/usart.rs").read()
 CA = open("/repo/src/interface/can.rs").read()
 SE = open("/repo/src/interface/serial.rs").read()
+BU = open("/repo/src/event/button.rs").read()
+BC = open("/repo/src/event/bcm.rs").read()
+RL = open("/repo/src/event/relay.rs").read()
+PG = open("/repo/src/event/programmer.rs").read()
+EV_SIZE5 = """        if packet.data.len() != 5 {
+            return Err(ConvertPacketError::WrongSize);
+        }
+
+"""
+EV_ISERR = """        if packet.is_error {
+            return Err(ConvertPacketError::WrongType);
+        }
+
+"""
 
 
 def rep(s, a, b):
@@ -201,6 +215,22 @@ VARIANTS = {
     "px-B6-no-filter": ("protocol.rs", rep(PR, XFILTER_ALL, "                    if true\n                    {"), "src_exchangeLoop_eq"),
     "px-B7-wait-before-send": ("protocol.rs", rep(PR, "        self.send_packet(&packet)?;\n\n        wait_closure();\n\n        loop {\n            match self.interface.try_get_packet() {\n                Ok(received_packet) => {\n                    if capture_all_addresses\n                        || received_packet.device_address == self.device_address\n                        || received_packet.device_address == BROADCAST_ADDRESS\n                    {\n                        if let Ok(received_event) = R::try_from_packet(&received_packet) {\n                            return", "        wait_closure();\n\n        self.send_packet(&packet)?;\n\n        loop {\n            match self.interface.try_get_packet() {\n                Ok(received_packet) => {\n                    if capture_all_addresses\n                        || received_packet.device_address == self.device_address\n                        || received_packet.device_address == BROADCAST_ADDRESS\n                    {\n                        if let Ok(received_event) = R::try_from_packet(&received_packet) {\n                            return"), "src_exchange_eq"),
     "px-B8-add-wrong-id": ("protocol.rs", rep(PR, "        self.handlers.insert(id, (handler, capture_all_addresses));", "        self.handlers.insert(id + 1, (handler, capture_all_addresses));"), "src_addHandler_eq"),
+    # ---- event decoders, harmless
+    "ev-R1-error-flag-first": ("event/button.rs", rep(BU, EV_SIZE5 + EV_ISERR, EV_ISERR + EV_SIZE5), None),
+    "ev-R2-size-flipped": ("event/button.rs", rep(BU, "if packet.data.len() != 5 {", "if 5 != packet.data.len() {"), None),
+    "ev-R3-lets-reordered": ("event/button.rs", rep(BU, "        let button_address = u16::from_be_bytes(packet.data[2..=3].try_into().unwrap());\n        let index = packet.data[4];\n", "        let index = packet.data[4];\n        let button_address = u16::from_be_bytes(packet.data[2..=3].try_into().unwrap());\n"), None),
+    "ev-R4-bcm-le": ("event/bcm.rs", rep(BC, "if packet.data.len() < 7 {", "if packet.data.len() <= 6 {"), None),
+    "ev-R5-self-struct": ("event/button.rs", rep(BU, "        Ok(ButtonPressedEvent {", "        Ok(Self {"), None),
+    # ---- event decoders, breaking
+    "ev-B1-size-guard-dropped": ("event/button.rs", rep(BU, EV_SIZE5 + EV_ISERR, EV_ISERR), "src_decode_buttonPressed"),
+    "ev-B2-size-guard-weakened": ("event/button.rs", rep(BU, "if packet.data.len() != 5 {", "if packet.data.len() < 5 {"), "src_decode_buttonPressed"),
+    "ev-B3-error-flag-ignored": ("event/button.rs", rep(BU, EV_SIZE5 + EV_ISERR, EV_SIZE5), "src_decode_buttonPressed"),
+    "ev-B4-wrong-offset": ("event/button.rs", rep(BU, "let button_address = u16::from_be_bytes(packet.data[2..=3].try_into().unwrap());", "let button_address = u16::from_be_bytes(packet.data[3..=4].try_into().unwrap());"), "src_decode_buttonPressed"),
+    "ev-B5-wrong-code": ("event/button.rs", rep(BU, "!= BUTTON_PRESSED_EVENT_CODE {", "!= BUTTON_RELEASED_EVENT_CODE {"), "src_decode_buttonPressed"),
+    "ev-B6-slice-too-wide": ("event/programmer.rs", rep(PG, "let firmware_size = u32::from_be_bytes(packet.data[4..=7].try_into().unwrap());", "let firmware_size = u32::from_be_bytes(packet.data[4..=8].try_into().unwrap());"), "src_decode_startFirmwareUpgrade"),
+    "ev-B7-bcm-min-length": ("event/bcm.rs", rep(BC, "if packet.data.len() < 7 {", "if packet.data.len() < 5 {"), "src_decode_bcmChange"),
+    "ev-B8-relay-value-offset": ("event/relay.rs", rep(RL, "RelayValue::deserialize(&packet.data[5..])?", "RelayValue::deserialize(&packet.data[4..])?"), "src_decode_relaySet"),
+    "ev-B9-fields-swapped": ("event/programmer.rs", rep(PG, "let new_address = u16::from_be_bytes(packet.data[4..=5].try_into().unwrap());", "let new_address = u16::from_be_bytes(packet.data[2..=3].try_into().unwrap());"), "src_decode_setDeviceAddress"),
     # ---- interface/*.rs (frame-level tail of try_get_packet), harmless
     "rx-R1-add-as-match": ("interface/usart.rs", rep(US, ADD_IFLET, ADD_MATCH), None),
     "rx-R2-zero-flipped": ("interface/usart.rs", rep(US, "if packet_builder.frames_left() == 0 {", "if 0 == packet_builder.frames_left() {"), None),
